@@ -164,6 +164,34 @@ func (g *rig) judge(q *rq) bool {
 				g.viol("transparency|header|"+k+sfx, fmt.Sprintf("hit %s=%q, origin %q", k, got, want), ox)
 			}
 		}
+		if g.cf.PreHdr {
+			// headers a middleware in front of the cache had pre-set: what the origin response
+			// carried (left alone or overridden) is a stored header; one the origin deleted is
+			// not a stored header - no expectation, counted
+			for _, k := range preNames {
+				want, ok := x.Hdr[k]
+				if !ok {
+					if q.Resp.Get(k) != "" {
+						g.e.Stat("hit-carries-header-the-origin-had-deleted", 1)
+					}
+					continue
+				}
+				if got := q.Resp.Get(k); got != want {
+					g.viol("transparency|header|"+k+sfx, fmt.Sprintf("hit %s=%q, origin %q", k, got, want), ox)
+				}
+			}
+		}
+		// header lines the origin added more than once
+		for _, k := range []string{"Link", "Set-Cookie"} {
+			want := x.Multi[k]
+			if len(want) == 0 {
+				continue
+			}
+			got := q.Resp.All(k)
+			if strings.Join(got, "\n") != strings.Join(want, "\n") {
+				g.viol("transparency|header|"+k+"|multi-valued"+sfx, fmt.Sprintf("hit carries %d %s line(s) %q, the origin response had %d: %q", len(got), k, got, len(want), want), ox)
+			}
+		}
 	}
 	// admission
 	if !cacheable[x.Status] {
